@@ -7,8 +7,9 @@
    cache mode (default / off / memory engine with embedded documents / third
    party engine, possibly failing), the IPFS client and gateway, and two
    recorded primitives: `url_ok` (http.NewRequest succeeds) and `cc`
-   (the answer of pquerna/cachecontrol for a header set: may it be stored,
-   and for how many seconds is it fresh).  EVERY theorem holds for every `cfg`,
+   (the answers of pquerna/cachecontrol for a header set: may it be stored,
+   for how many seconds is it fresh, does it carry no-cache; `storable cfg p`
+   is the loader's shouldCache = cc_store && not cc_nocache).  EVERY theorem holds for every `cfg`,
    i.e. whatever those primitives answer, and for every history `ops`.
    `elapsed pre` is the time at which the operation after the prefix `pre`
    runs, `served pre k` is what the origin answers at key k at that moment
@@ -30,7 +31,7 @@ Theorem C19_inv :
   assoc String.eqb k (embedded cfg) = None /\
   exists pre u post p,
     ops = pre ++ Load u :: post /\ route_of cfg u = ToHttp k /\
-    served pre k = RResp 200 (BJson d) p /\ cc_store cfg p = true /\
+    served pre k = RResp 200 (BJson d) p /\ storable cfg p = true /\
     e = expiry_of (cc_lifetime cfg p) (elapsed pre).
 Proof. exact cache_from_history. Qed.
 Print Assumptions C19_inv.
@@ -69,7 +70,7 @@ Theorem C19_fresh :
     (exists k pre u0 post p l,
        route_of cfg u = ToHttp k /\ assoc String.eqb k (embedded cfg) = None /\
        ops = pre ++ Load u0 :: post /\ route_of cfg u0 = ToHttp k /\
-       served pre k = RResp 200 (BJson d) p /\ cc_store cfg p = true /\
+       served pre k = RResp 200 (BJson d) p /\ storable cfg p = true /\
        cc_lifetime cfg p = Some l /\ elapsed ops < elapsed pre + l /\
        In (k, (d, TAt (elapsed pre + l))) (cache (run cfg ops)) /\
        st' = run cfg ops)
@@ -90,7 +91,7 @@ Theorem C19_no_reuse :
   (forall pre u0 post p,
      ops = pre ++ Load u0 :: post -> route_of cfg u0 = ToHttp k ->
      served pre k = RResp 200 (BJson d) p ->
-     cc_store cfg p = false \/ cc_lifetime cfg p = None \/
+     storable cfg p = false \/ cc_lifetime cfg p = None \/
      (exists l, cc_lifetime cfg p = Some l /\ elapsed pre + l <= elapsed ops)) ->
   exists p, served ops k = RResp 200 (BJson d) p /\
             reqlog st' = (CHttp, k, elapsed ops, RResp 200 (BJson d) p) :: reqlog (run cfg ops).
@@ -98,12 +99,14 @@ Proof. exact load_no_reuse. Qed.
 Print Assumptions C19_no_reuse.
 
 (* The same in terms of header names, under the stated assumption on the dependency (the library
-   refuses no-store / private, and gives no lifetime without freshness information); the recorded
-   table is checked against this assumption on every run. *)
+   refuses no-store / private, reports the no-cache directive, and gives no lifetime without
+   freshness information); the recorded table is checked against this assumption on every run. *)
 Theorem C19_no_reuse_headers :
   forall cfg ops u k d st',
   ((forall p, match p with PNoStore | PPrivate | PPrivateMaxAge _ | PNoStoreMaxAge _ => True | _ => False end ->
               cc_store cfg p = false) /\
+   (forall p, match p with PNoCache | PNoCacheMaxAge _ => True | _ => False end ->
+              cc_nocache cfg p = true) /\
    (forall p, match p with PNone | PNoCache | PExpiresInvalid => True | _ => False end ->
               cc_lifetime cfg p = None)) ->
   load cfg (run cfg ops) u = (st', Ok d) ->
@@ -113,6 +116,7 @@ Theorem C19_no_reuse_headers :
      ops = pre ++ Load u0 :: post -> route_of cfg u0 = ToHttp k ->
      served pre k = RResp 200 (BJson d) p ->
      match p with PNoStore | PPrivate | PPrivateMaxAge _ | PNoStoreMaxAge _ => True | _ => False end \/
+     match p with PNoCache | PNoCacheMaxAge _ => True | _ => False end \/
      match p with PNone | PNoCache | PExpiresInvalid => True | _ => False end) ->
   exists p, served ops k = RResp 200 (BJson d) p /\
             reqlog st' = (CHttp, k, elapsed ops, RResp 200 (BJson d) p) :: reqlog (run cfg ops).
@@ -133,7 +137,7 @@ Theorem C19_failures :
      ((exists k pre u0 post p l,
         route_of cfg u = ToHttp k /\ assoc String.eqb k (embedded cfg) = None /\
         ops = pre ++ Load u0 :: post /\ route_of cfg u0 = ToHttp k /\
-        served pre k = RResp 200 (BJson d) p /\ cc_store cfg p = true /\
+        served pre k = RResp 200 (BJson d) p /\ storable cfg p = true /\
         cc_lifetime cfg p = Some l /\ elapsed ops < elapsed pre + l /\
         In (k, (d, TAt (elapsed pre + l))) (cache (run cfg ops)) /\
         st' = run cfg ops)
